@@ -651,6 +651,6 @@ interesting T-states, the bus-cycle trace taken from the real Z80 on a recording
     // (5) whole-machine lock-step: real Emulator vs the Lean Z80 reference on the Lean Spectrum bus
     let ts48 = interesting_ts(false, false, &mut rng);
     let ts128 = interesting_ts(true, false, &mut rng);
-    crate::sys::lockstep(o, &mut rep, "C04", o.n(2500, 200_000), &ts48, &ts128);
+    crate::sys::lockstep(o, &mut rep, "C04", o.n(2500, 200_000), &ts48, &ts128, false);
     rep
 }
